@@ -149,12 +149,21 @@ int main(int argc, char **argv)
 					fl = wirelen;
 					memcpy(full, wire, fl);
 					nrr = rr_offsets(full, fl, offs, 300);
-					for (v = 0; v < nrr * 3 + 12; v++) {
+					for (v = 0; v < nrr * 3 + 12 + (nrr > 0 ? 9 : 0); v++) {
 						int cutlen, pm, r0 = 0, at0 = 0, equal = 1, r, at;
 						memcpy(wire, full, fl);
 						if (v < nrr * 3) {		/* record boundary, 0 / 1 / 2 bytes of rdata left */
 							int o = offs[v / 3], left = v % 3;
 							wire[o] = 0; wire[o + 1] = (unsigned char) left;
+							cutlen = o + 2 + left;
+						} else if (v >= nrr * 3 + 12) {
+							/* inside the first record's rdata, RDLENGTH patched to what is left: around the end of its
+							   first and second inner unit (s = first rdata byte: a TXT character-string length) - an inner
+							   length that reaches 1, 0, -1, -2 bytes past the rdata */
+							static const int mul[9] = { 1, 1, 1, 1, 2, 2, 2, 2, 3 }, add[9] = { -1, 0, 1, 2, 0, 1, 2, 3, 2 };
+							int o = offs[0], k = v - (nrr * 3 + 12), sl = full[o + 2], left = mul[k] * sl + add[k];
+							if (left < 1 || o + 2 + left >= fl) left = 1;
+							wire[o] = (unsigned char) (left >> 8); wire[o + 1] = (unsigned char) (left & 0xff);
 							cutlen = o + 2 + left;
 						} else {
 							rng = rng * 6364136223846793005ULL + 1442695040888963407ULL;
@@ -174,7 +183,7 @@ int main(int argc, char **argv)
 						}
 						paint_mode = 0;
 						printf("{\"e\":\"Pair\",\"i\":%d,\"equal\":%s,\"len\":%d,\"victim\":true,\"qt\":%d,\"codec\":\"%c\",\"cut\":\"%s\",\"hex\":\"\"}\n",
-						       v, equal ? "true" : "false", cutlen, types[t], codecs[c], v < nrr * 3 ? "record" : "random");
+						       v, equal ? "true" : "false", cutlen, types[t], codecs[c], v < nrr * 3 ? "record" : v >= nrr * 3 + 12 ? "inner" : "random");
 					}
 				}
 				printf("{\"e\":\"Reset\"}\n");
@@ -183,7 +192,8 @@ int main(int argc, char **argv)
 	}
 	for (t = 0; t < 7; t++)
 		for (c = 0; c < 5; c++) {
-			if (codecs[c] == 'R' && !(types[t] == 16 || types[t] == 10 || types[t] == 65399)) continue;
+			/* (codec R with a host-name record type is reachable - the option request accepts it for every type - and
+			   is served as Base32) */
 			for (qn = 0; qn < 2; qn++)
 				for (kind = 0; kind < 4; kind++) {
 					if ((cnt++ % ns) != shard) continue;
